@@ -499,6 +499,11 @@ def c11h(tree, ob):
                 continue
             n += 1
             fv = fv or FuncView(tree, CLA, qual)
+            asy = [k.arg for k in c.keywords if k.arg in ('reply_handler', 'error_handler', 'ignore_reply')]
+            if asy:
+                ob.violate(CLA, qual, src(c)[:70].replace('\n', ' '), 'the bundle is handed to the CL by an asynchronous D-Bus call ({}): a refusal by the session (terminating, closed) no longer comes back '
+                           'as an exception, the agent records the bundle as forwarded and sends no deletion report although nothing was transmitted'.format(asy[0]), c, sure=True)
+                continue
             d = unwrap(fv.value_at(c.args[0], c, depth=3, keep=tuple(params)))
             ok = False
             if isinstance(d, ast.Name) and d.id in params:
